@@ -79,11 +79,28 @@ fn sweep_all(
     inputs: &[(Target, F)],
     rng: &mut Rng,
     t: &mut Tally,
+    on_sat: impl FnMut(usize, &hints::Alt, &[u64], &mut Tally),
+) -> (u64, u64) {
+    sweep_some(circ, inputs, rng, t, usize::MAX, on_sat)
+}
+
+/// As `sweep_all`, over a random subset of at most `max_gens` hint generators.
+fn sweep_some(
+    circ: &Circuit,
+    inputs: &[(Target, F)],
+    rng: &mut Rng,
+    t: &mut Tally,
+    max_gens: usize,
     mut on_sat: impl FnMut(usize, &hints::Alt, &[u64], &mut Tally),
 ) -> (u64, u64) {
     let r = circ.run(inputs, &[], true, false);
     let Some(w) = r.witness else { return (0, 0) };
-    let gens = hints::hint_gens(circ);
+    let mut gens = hints::hint_gens(circ);
+    if gens.len() > max_gens {
+        rng.shuffle(&mut gens);
+        gens.truncate(max_gens);
+        gens.sort();
+    }
     let mut plausible = 0u64;
     let mut sat_alts: Vec<(usize, hints::Alt, Vec<u64>)> = vec![];
     let n = hints::sweep(circ, inputs, &[], &w, &gens, rng, |h| {
@@ -423,7 +440,7 @@ fn gen_sort_list(rng: &mut Rng, len: usize) -> Vec<D4> {
     v
 }
 
-fn sort_case(sc: &SortCircuit, vals: &[D4], rng: &mut Rng, t: &mut Tally, sweep: bool) {
+fn sort_case(sc: &SortCircuit, vals: &[D4], rng: &mut Rng, t: &mut Tally, sweep: usize) {
     let inputs = sc.fill(vals);
     let out = sc.circuit.eval(&inputs, &[]);
     t.eval();
@@ -449,8 +466,8 @@ fn sort_case(sc: &SortCircuit, vals: &[D4], rng: &mut Rng, t: &mut Tally, sweep:
         let flat: Vec<u64> = vals.iter().flatten().copied().collect();
         t.nontrivial(fnv_u64s(&flat));
     }
-    if sweep {
-        let (n, pl) = sweep_all(&sc.circuit, &inputs, rng, t, |g, alt, pis, t| {
+    if sweep > 0 {
+        let (n, pl) = sweep_some(&sc.circuit, &inputs, rng, t, sweep, |g, alt, pis, t| {
             if pis != expect.as_slice() {
                 let repl = vec![Replace { gen: g, values: alt.values.clone() }];
                 match sc.circuit.confirm(&inputs, &repl) {
@@ -480,12 +497,14 @@ pub fn run_c31(ctx: &Ctx) {
     let lens: Vec<usize> = ctx.tier.pick(vec![1, 2, 3, 4, 5, 7, 8, 12, 16], vec![1, 2, 3, 4, 5, 6, 7, 8, 9, 12, 16, 24, 32, 48, 64]);
     let per_len = ctx.tier.pick(1200usize, 60_000);
     let sweeps_per_len = ctx.tier.pick(24usize, 600);
+    // lists longer than 5 have thousands of hint generators: sweep a random subset per list
+    let gens_cap = ctx.tier.pick(120usize, 400);
     ctx.set_rule(&format!(
         "sort_digests4 circuits for lengths {:?} (outputs registered as public inputs). lengths 2 and 3 exhaustively over digests with limbs in {{0,1,p-1}} in the two most significant positions; \
          {} generated lists per length (random, shared prefixes of 1..3 limbs, all-edge limbs {{0,1,2^32-2,2^32-1,2^32,2^32+1,p-2,p-1}}, all equal, 2-letter alphabet, pre-sorted, reverse-sorted, forced duplicates); \
-         full single-generator hint sweep (canonical-split p-alias halves, borrow/carry, flipped comparator bits and equality flags, bit flips) on {} lists per length. \
+         single-generator hint sweep (all hint generators for lengths <= 5, a random subset of {} per list above; canonical-split p-alias halves, borrow/carry, flipped comparator bits and equality flags, bit flips) on {} lists per length. \
          Oracle: honest witness Sat with output == input sorted ascending by [u64;4]; every Sat alternative has the same output. Non-trivial: a tie in the first limb or an aliasable limb (< 2^32-1).",
-        lens, per_len, sweeps_per_len));
+        lens, per_len, gens_cap, sweeps_per_len));
     ctx.extra("exhaustive_subspaces", json!(["length 2: all pairs over limbs {0,1,p-1}^2 in positions 0,1", "length 3: all triples over limbs {0,p-1}^2 in positions 0,1"]));
     let workers = ctx.n_workers();
     let lens = &lens;
@@ -508,7 +527,7 @@ pub fn run_c31(ctx: &Ctx) {
             let sw = if share_all { sweeps_per_len.div_ceil(workers) } else { sweeps_per_len / 4 };
             for c in 0..count {
                 let vals = gen_sort_list(&mut rng, len);
-                sort_case(&sc, &vals, &mut rng, t, c < sw && len <= 16);
+                sort_case(&sc, &vals, &mut rng, t, if c < sw { if len <= 5 { usize::MAX } else { gens_cap } } else { 0 });
                 if c == 0 && wi < 3 {
                     t.sample(json!({"len": len, "input": vals}));
                 }
@@ -519,7 +538,7 @@ pub fn run_c31(ctx: &Ctx) {
                 let ds: Vec<D4> = alpha.iter().flat_map(|a| alpha.iter().map(move |b| [*a, *b, 5, 5])).collect();
                 for a in &ds {
                     for b in &ds {
-                        sort_case(&sc, &[*a, *b], &mut rng, t, false);
+                        sort_case(&sc, &[*a, *b], &mut rng, t, 0);
                         t.class("exhaustive:len2");
                     }
                 }
@@ -527,7 +546,7 @@ pub fn run_c31(ctx: &Ctx) {
                 let ds2: Vec<D4> = alpha.iter().flat_map(|a| alpha.iter().map(move |b| [7, 7, *a, *b])).collect();
                 for a in &ds2 {
                     for b in &ds2 {
-                        sort_case(&sc, &[*a, *b], &mut rng, t, false);
+                        sort_case(&sc, &[*a, *b], &mut rng, t, 0);
                         t.class("exhaustive:len2");
                     }
                 }
@@ -538,7 +557,7 @@ pub fn run_c31(ctx: &Ctx) {
                 for a in &ds {
                     for b in &ds {
                         for c in &ds {
-                            sort_case(&sc, &[*a, *b, *c], &mut rng, t, false);
+                            sort_case(&sc, &[*a, *b, *c], &mut rng, t, 0);
                             t.class("exhaustive:len3");
                         }
                     }
@@ -570,7 +589,7 @@ pub fn replay(case: &Value) -> Result<bool, String> {
             let sc = build_sort(vals.len())?;
             for s in 0..4 {
                 let mut r2 = Rng::new(s);
-                sort_case(&sc, &vals, &mut r2, &mut t, true);
+                sort_case(&sc, &vals, &mut r2, &mut t, usize::MAX);
             }
         }
         Some("bound") | Some("bound_hint") => {
